@@ -59,7 +59,7 @@ Section Fifo.
   Definition J3 (s : shared) : Prop := forall j, j <= 3 -> j <> k -> fQ s j = [].
   Definition J5 (p : pc) : Prop := Forall (fun m => fid (mid m) = true -> qidx (mq m) = k) (carried p).
   Definition sender_pc (p : pc) : bool :=
-    match p with S_load _ _ | S_alive _ _ _ | S_push _ _ _ | S_link _ _ _ | S_cas _ _ | S_spawn _ _ | Done => true | _ => false end.
+    match p with S_load _ _ | S_alive _ _ _ | S_push _ _ _ | S_lim _ _ _ | S_link _ _ _ | S_cas _ _ | S_spawn _ _ | Done => true | _ => false end.
 
   Lemma cf_next_send b todo : cf (next_send b todo) = filter fid (map mid todo).
   Proof. destruct todo; reflexivity. Qed.
@@ -108,6 +108,15 @@ Section Fifo.
         unfold fQ. rewrite <- (qget_qidx (qs s) j'), <- E, qget_qidx. reflexivity. }
       split; [unfold fH; cbn [handled upd_qs]; rewrite Hq; reflexivity|].
       split; [intros j Hj Hne; rewrite Hq; apply HJ3; assumption|]. split; [exact Hcf|exact Hnp].
+    - (* S_lim: bounded queue accepts a message that is not ours *)
+      unfold cf in Hcf. cbn [carried map filter] in Hcf.
+      destruct (fid (mid m)) eqn:Ef; [discriminate|].
+      assert (Hq : forall j', fQ (upd_qs s (qset (qs s) (mq m) (qget (qs s) (mq m) ++ [(m, false)]))) j' = fQ s j').
+      { intros j'. rewrite fQ_qset. destruct (Nat.eqb (qidx (mq m)) (qidx j')) eqn:E; [|reflexivity].
+        apply Nat.eqb_eq in E. rewrite map_app, filter_app. cbn [map fst filter]. rewrite Ef, app_nil_r.
+        unfold fQ. rewrite <- (qget_qidx (qs s) j'), <- E, qget_qidx. reflexivity. }
+      split; [unfold fH; cbn [handled upd_qs]; rewrite Hq; reflexivity|].
+      split; [intros j Hj Hne; rewrite Hq; apply HJ3; assumption|]. split; [exact Hcf|exact Hnp].
     - (* S_link: ids of the queue unchanged *)
       assert (Hq : forall j', fQ (add_ok (upd_qs s (qset (qs s) (mq m) (mark_linked (mid m) (qget (qs s) (mq m))))) (mid m)) j' = fQ s j').
       { intros j'. unfold fQ. cbn [qs add_ok upd_qs]. rewrite qget_qset.
@@ -141,6 +150,19 @@ Section Fifo.
           intros j Hj Hne. rewrite Hq, (qidx_le3 j Hj).
           destruct (Nat.eqb (qidx k0) j) eqn:E; [exact Hz|]. apply HJ3; assumption.
     - (* P_cb: self-send push of a message that is not ours *)
+      unfold cf in Hcf. cbn [carried map filter] in Hcf.
+      destruct (fid (mid m)) eqn:Ef; [discriminate|].
+      assert (Hq : forall j', fQ (upd_qs s (qset (qs s) (mq m) (qget (qs s) (mq m) ++ [(m, false)]))) j' = fQ s j').
+      { intros j'. rewrite fQ_qset. destruct (Nat.eqb (qidx (mq m)) (qidx j')) eqn:E; [|reflexivity].
+        apply Nat.eqb_eq in E. rewrite map_app, filter_app. cbn [map fst filter]. rewrite Ef, app_nil_r.
+        unfold fQ. rewrite <- (qget_qidx (qs s) j'), <- E, qget_qidx. reflexivity. }
+      split; [unfold fH; cbn [handled upd_qs]; rewrite Hq; reflexivity|].
+      split; [intros j Hj Hne; rewrite Hq; apply HJ3; assumption|]. split; [exact Hcf|exact Hnp].
+    - (* P_lim refused: the self-send gets ErrProcessMailboxFull *)
+      unfold cf in Hcf. cbn [carried map filter] in Hcf.
+      destruct (fid (mid m)) eqn:Ef; [discriminate|].
+      split; [reflexivity|]. split; [exact HJ3|]. split; [exact Hcf|exact Hnp].
+    - (* P_lim *)
       unfold cf in Hcf. cbn [carried map filter] in Hcf.
       destruct (fid (mid m)) eqn:Ef; [discriminate|].
       assert (Hq : forall j', fQ (upd_qs s (qset (qs s) (mq m) (qget (qs s) (mq m) ++ [(m, false)]))) j' = fQ s j').
@@ -196,8 +218,41 @@ Section Fifo.
         split; [exact H3|]. split; [apply H5ns; unfold J5 in H5; cbn [carried] in H5; inversion H5; assumption|].
         split; [apply Hns|exact Hnp].
     - (* S_push *)
-      inversion Hstep; subst; clear Hstep.
-      pose proof (J5_tail _ _ _ H5) as H5t.
+      destruct (limit s) eqn:Elim; inversion Hstep; subst; clear Hstep.
+      2: { (* bounded queue: the length check comes first, nothing changes yet *)
+           split; [exact Hsub|]. split; [exact H3|]. split; [exact H5|]. split; [reflexivity|exact Hnp]. }
+      assert (H5t : Forall (fun m => fid (mid m) = true -> qidx (mq m) = k) todo) by (unfold J5 in H5; cbn [carried] in H5; inversion H5; assumption).
+      unfold J5 in H5. cbn [carried] in H5. inversion H5 as [|? ? Hm _]; subst.
+      unfold cf in Hsub. cbn [carried map filter] in Hsub.
+      assert (Hq : forall j', fQ (upd_qs s (qset (qs s) (mq m) (qget (qs s) (mq m) ++ [(m, false)]))) j' =
+                              if Nat.eqb (qidx (mq m)) (qidx j') then fQ s j' ++ (if fid (mid m) then [mid m] else []) else fQ s j').
+      { intros j'. rewrite fQ_qset. destruct (Nat.eqb (qidx (mq m)) (qidx j')) eqn:E; [|reflexivity].
+        apply Nat.eqb_eq in E. rewrite map_app, filter_app. cbn [map fst filter].
+        unfold fQ. rewrite <- (qget_qidx (qs s) j'), <- E, qget_qidx. destruct (fid (mid m)); reflexivity. }
+      unfold fH in *. cbn [handled upd_qs]. unfold cf. cbn [carried].
+      destruct (fid (mid m)) eqn:Ef.
+      + specialize (Hm eq_refl). rewrite Hq, (qidx_le3 k Hk), Hm, Nat.eqb_refl.
+        split; [rewrite <- !app_assoc; cbn [app]; exact Hsub|].
+        split; [|split; [exact H5t|split; [reflexivity|exact Hnp]]].
+        intros j Hj Hne. rewrite Hq, (qidx_le3 j Hj), Hm.
+        destruct (Nat.eqb k j) eqn:E; [apply Nat.eqb_eq in E; congruence|]. apply H3; assumption.
+      + assert (Hq' : forall j', fQ (upd_qs s (qset (qs s) (mq m) (qget (qs s) (mq m) ++ [(m, false)]))) j' = fQ s j').
+        { intros j'. rewrite Hq. destruct (Nat.eqb (qidx (mq m)) (qidx j')); [apply app_nil_r|reflexivity]. }
+        rewrite Hq'. split; [exact Hsub|].
+        split; [intros j Hj Hne; rewrite Hq'; apply H3; assumption|]. split; [exact H5t|split; [reflexivity|exact Hnp]].
+    - (* S_lim *)
+      destruct (Nat.leb (limit s) (length (qget (qs s) (mq m)))) eqn:Efull.
+      * (* refused: error or re-routed to the fallback; the message leaves the sender *)
+        assert (Hdrop : sublist (fH s ++ fQ s k ++ cf (next_send byname todo)) F /\
+                        J5 (next_send byname todo) /\ sender_pc (next_send byname todo) = true).
+        { rewrite cf_next_send. unfold cf in Hsub. cbn [carried map filter] in Hsub.
+          split; [apply (sublist_drop_carried _ _ (mid m)); exact Hsub|].
+          split; [apply H5ns; unfold J5 in H5; cbn [carried] in H5; inversion H5; assumption|apply Hns]. }
+        destruct Hdrop as (D1 & D2 & D3).
+        destruct (fbon s); inversion Hstep; subst; clear Hstep;
+          (split; [exact D1|]; split; [exact H3|]; split; [exact D2|]; split; [exact D3|exact Hnp]).
+      * inversion Hstep; subst; clear Hstep.
+      assert (H5t : Forall (fun m => fid (mid m) = true -> qidx (mq m) = k) todo) by (unfold J5 in H5; cbn [carried] in H5; inversion H5; assumption).
       unfold J5 in H5. cbn [carried] in H5. inversion H5 as [|? ? Hm _]; subst.
       unfold cf in Hsub. cbn [carried map filter] in Hsub.
       assert (Hq : forall j', fQ (upd_qs s (qset (qs s) (mq m) (qget (qs s) (mq m) ++ [(m, false)]))) j' =
@@ -366,8 +421,8 @@ Proof.
   - apply NoDup_app_remove_l in Hnd. eapply IH; eauto.
 Qed.
 
-Lemma FifoInv_init named selfs initok others i b orig k :
-  let c0 := init_cfg named selfs initok others in
+Lemma FifoInv_init named lim fb selfs initok others i b orig k :
+  let c0 := init_cfg named lim fb selfs initok others in
   nth_error (thr c0) i = Some (S_load b orig) -> NoDup (init_ids c0) ->
   FifoInv i k (map mid (filter (fun m => Nat.eqb (qidx (mq m)) k) orig)) c0.
 Proof.
@@ -396,8 +451,8 @@ Qed.
 
 (* C03, per-sender FIFO: whatever the schedule and whatever the other goroutines do, the
    class-k messages of one sender that have been handled were handled in sending order. *)
-Theorem per_sender_fifo sched named selfs initok others i b orig k :
-  let c0 := init_cfg named selfs initok others in
+Theorem per_sender_fifo sched named lim fb selfs initok others i b orig k :
+  let c0 := init_cfg named lim fb selfs initok others in
   nth_error (thr c0) i = Some (S_load b orig) -> k <= 3 -> NoDup (init_ids c0) ->
   let F := map mid (filter (fun m => Nat.eqb (qidx (mq m)) k) orig) in
   sublist (filter (fid F) (handled (sh (run sched c0)))) F.
@@ -406,21 +461,21 @@ Proof.
   assert (HI : FifoInv i k F (run sched c0)).
   { apply (run_invariant (FifoInv i k F)).
     - intros c j c' H Hs. eapply step_fifo; eauto.
-    - apply (FifoInv_init named selfs initok others i b orig k); assumption. }
+    - apply (FifoInv_init named lim fb selfs initok others i b orig k); assumption. }
   destruct HI as (p & _ & _ & _ & _ & Hsub & _).
   eapply sublist_trans; [|exact Hsub]. apply sublist_app_l.
 Qed.
 
 (* the same as an order statement on the handled list itself *)
-Theorem per_sender_fifo_order sched named selfs initok others i b orig k x y pre mid_ post :
-  let c0 := init_cfg named selfs initok others in
+Theorem per_sender_fifo_order sched named lim fb selfs initok others i b orig k x y pre mid_ post :
+  let c0 := init_cfg named lim fb selfs initok others in
   nth_error (thr c0) i = Some (S_load b orig) -> k <= 3 -> NoDup (init_ids c0) ->
   let F := map mid (filter (fun m => Nat.eqb (qidx (mq m)) k) orig) in
   handled (sh (run sched c0)) = pre ++ x :: mid_ ++ y :: post -> In x F -> In y F ->
   exists p1 p2 p3, F = p1 ++ x :: p2 ++ y :: p3.
 Proof.
   intros c0 Hn Hk Hnd F Hh Hx Hy.
-  pose proof (per_sender_fifo sched named selfs initok others i b orig k Hn Hk Hnd) as Hsub. cbv zeta in Hsub. fold c0 in Hsub. fold F in Hsub.
+  pose proof (per_sender_fifo sched named lim fb selfs initok others i b orig k Hn Hk Hnd) as Hsub. cbv zeta in Hsub. fold c0 in Hsub. fold F in Hsub.
   rewrite Hh in Hsub. rewrite filter_app in Hsub. cbn [filter] in Hsub.
   assert (Ex : fid F x = true) by (apply existsb_eqb_In; exact Hx).
   assert (Ey : fid F y = true) by (apply existsb_eqb_In; exact Hy).
